@@ -5,7 +5,8 @@
    (statements closed by [exact]; proofs in Crypto/C10*Sound.v), plus the known-answer tests that
    pin the model's primitives to FIPS 180-4 / RFC 4231 / RFC 5869 / RFC 3610 by kernel evaluation. *)
 From DtlsV Require Import Lib.Bytes Gen.Generated Crypto.C10Sha2 Crypto.C10Hmac Crypto.C10Prf
-  Crypto.C10PrfSound Crypto.C10Run.
+  Crypto.C10PrfSound Crypto.C10Layout Crypto.C10LayoutSound Crypto.C10Hkdf Crypto.C10HkdfSound
+  Crypto.C10Suites Crypto.C10SuitesSound Crypto.C10Aes Crypto.C10Record Crypto.C10Run.
 Open Scope N_scope.
 
 (* P_hash yields exactly the requested number of bytes, for every secret, seed and length
@@ -17,7 +18,7 @@ Print Assumptions C10_phash_length.
 
 Theorem C10_hashes_wf :
   hash_wf H_sha256 /\ hash_wf H_sha384 /\ hash_wf H_sha512 /\ hash_wf H_sha1.
-Proof. exact (conj H_sha256_wf (conj H_sha384_wf (conj H_sha512_wf H_sha1_wf))). Qed.
+Proof. exact hashes_wf. Qed.
 Print Assumptions C10_hashes_wf.
 
 (* shorter requests are prefixes of longer ones (one stream) *)
@@ -84,3 +85,156 @@ Theorem C10_ecdhe_psk_premaster_injective :
   ecdhe_psk_premaster z psk = ecdhe_psk_premaster z' psk' -> z = z' /\ psk = psk'.
 Proof. exact ecdhe_psk_premaster_injective. Qed.
 Print Assumptions C10_ecdhe_psk_premaster_injective.
+
+(* ---------------- record protection layouts (also used by C05 and C09) ---------------- *)
+
+(* equal additional data => equal (epoch, sequence number, type, version, length) *)
+Theorem C10_aad_injective :
+  forall e s t v l e' s' t' v' l',
+  e < 2 ^ 16 -> e' < 2 ^ 16 -> s < 2 ^ 48 -> s' < 2 ^ 48 -> t < 256 -> t' < 256 ->
+  v < 2 ^ 16 -> v' < 2 ^ 16 -> l < 2 ^ 16 -> l' < 2 ^ 16 ->
+  aad12 e s t v l = aad12 e' s' t' v' l' ->
+  e = e' /\ s = s' /\ t = t' /\ v = v' /\ l = l'.
+Proof. exact aad12_injective. Qed.
+Print Assumptions C10_aad_injective.
+
+(* RFC 9146 additional data: additionally determines the connection ID *)
+Theorem C10_aad_cid_injective :
+  forall e s v cid l e' s' v' cid' l',
+  e < 2 ^ 16 -> e' < 2 ^ 16 -> s < 2 ^ 48 -> s' < 2 ^ 48 ->
+  v < 2 ^ 16 -> v' < 2 ^ 16 -> l < 2 ^ 16 -> l' < 2 ^ 16 -> len cid < 256 -> len cid' < 256 ->
+  aad12_cid e s v cid l = aad12_cid e' s' v' cid' l' ->
+  e = e' /\ s = s' /\ v = v' /\ cid = cid' /\ l = l'.
+Proof. exact aad12_cid_injective. Qed.
+Print Assumptions C10_aad_cid_injective.
+
+Theorem C10_aad_layouts_disjoint :
+  forall e s t v l e' s' v' cid l', aad12 e s t v l <> aad12_cid e' s' v' cid l'.
+Proof. exact aad12_vs_cid_disjoint. Qed.
+Print Assumptions C10_aad_layouts_disjoint.
+
+(* distinct (epoch, sequence number) within range => distinct nonce under one write IV *)
+Theorem C10_nonce_aes_injective :
+  forall iv e s e' s', e < 2 ^ 16 -> e' < 2 ^ 16 -> s < 2 ^ 48 -> s' < 2 ^ 48 ->
+  nonce_aes iv e s = nonce_aes iv e' s' -> e = e' /\ s = s'.
+Proof. exact nonce_aes_injective. Qed.
+Print Assumptions C10_nonce_aes_injective.
+
+Theorem C10_nonce_chacha_injective :
+  forall iv e s e' s', length iv = 12%nat -> e < 2 ^ 16 -> e' < 2 ^ 16 -> s < 2 ^ 48 -> s' < 2 ^ 48 ->
+  nonce_chacha iv e s = nonce_chacha iv e' s' -> e = e' /\ s = s'.
+Proof. exact nonce_chacha_injective. Qed.
+Print Assumptions C10_nonce_chacha_injective.
+
+Theorem C10_nonce13_injective :
+  forall iv s s', length iv = 12%nat -> s < 2 ^ 64 -> s' < 2 ^ 64 -> nonce13 iv s = nonce13 iv s' -> s = s'.
+Proof. exact nonce13_injective. Qed.
+Print Assumptions C10_nonce13_injective.
+
+Theorem C10_nonce_distinct :
+  forall iv e s e' s', length iv = 12%nat -> e < 2 ^ 16 -> e' < 2 ^ 16 -> s < 2 ^ 48 -> s' < 2 ^ 48 ->
+  (e, s) <> (e', s') ->
+  nonce_aes iv e s <> nonce_aes iv e' s' /\ nonce_chacha iv e s <> nonce_chacha iv e' s'.
+Proof. exact nonce_distinct. Qed.
+Print Assumptions C10_nonce_distinct.
+
+(* CBC: the block-cipher input is a whole number of blocks with 1..block padding bytes, each
+   holding padding_length *)
+Theorem C10_cbc_plaintext_aligned :
+  forall block content mac, 0 < block ->
+  len (cbc_plaintext block content mac) mod block = 0 /\
+  1 <= len (cbc_padding block (len content + len mac)) <= block /\
+  Forall (fun b => b = len (cbc_padding block (len content + len mac)) - 1)
+         (cbc_padding block (len content + len mac)).
+Proof. exact cbc_plaintext_aligned. Qed.
+Print Assumptions C10_cbc_plaintext_aligned.
+
+(* F8: the model of what cbc.go hmacCID authenticates differs from the RFC 9146 section 5.1 MAC
+   input for every non-empty inner plaintext (witness replayed on /repo by checks/c10.py) *)
+Theorem C10_cbc_cid_mac_input_refuted :
+  exists e s v cid inner,
+    cbc_mac_input_cid_as_coded e s v cid inner <> cbc_mac_input_cid e s v cid inner.
+Proof. exact cbc_cid_mac_input_refuted. Qed.
+Print Assumptions C10_cbc_cid_mac_input_refuted.
+
+Theorem C10_cbc_cid_mac_input_differs :
+  forall e s v cid inner, inner <> [] ->
+    cbc_mac_input_cid_as_coded e s v cid inner <> cbc_mac_input_cid e s v cid inner.
+Proof. exact cbc_cid_mac_input_differs. Qed.
+Print Assumptions C10_cbc_cid_mac_input_differs.
+
+(* ---------------- HKDF / DTLS 1.3 ---------------- *)
+
+(* sequence-number encryption is an involution: unmasking recovers the header bits *)
+Theorem C10_sn_mask_involutive :
+  forall (seq_bit : bool) (x : N) (mask : bytes),
+  bytes_ok mask = true -> (2 <= length mask)%nat -> x < (if seq_bit then 2 ^ 16 else 2 ^ 8) ->
+  sn_mask_apply seq_bit (sn_mask_apply seq_bit x mask) mask = x.
+Proof. exact sn_mask_involutive. Qed.
+Print Assumptions C10_sn_mask_involutive.
+
+Theorem C10_hkdf_expand_length :
+  forall H prk info L, hash_wf H -> length (hkdf_expand H prk info L) = L.
+Proof. exact hkdf_expand_length. Qed.
+Print Assumptions C10_hkdf_expand_length.
+
+(* distinct (length, label, context) => distinct HkdfLabel bytes *)
+Theorem C10_hkdf_label_injective :
+  forall n label ctx n' label' ctx',
+  n < 2 ^ 16 -> n' < 2 ^ 16 ->
+  len (dtls13_prefix ++ label) < 256 -> len (dtls13_prefix ++ label') < 256 ->
+  len ctx < 256 -> len ctx' < 256 ->
+  hkdf_label n label ctx = hkdf_label n' label' ctx' -> n = n' /\ label = label' /\ ctx = ctx'.
+Proof. exact hkdf_label_injective. Qed.
+Print Assumptions C10_hkdf_label_injective.
+
+Theorem C10_dtls13_labels :
+  dtls13_prefix = [100;116;108;115;49;51] /\
+  lbl_c_hs_traffic = [99;32;104;115;32;116;114;97;102;102;105;99] /\
+  lbl_s_hs_traffic = [115;32;104;115;32;116;114;97;102;102;105;99] /\
+  lbl_c_ap_traffic = [99;32;97;112;32;116;114;97;102;102;105;99] /\
+  lbl_s_ap_traffic = [115;32;97;112;32;116;114;97;102;102;105;99] /\
+  lbl_exp_master = [101;120;112;32;109;97;115;116;101;114] /\
+  lbl_res_master = [114;101;115;32;109;97;115;116;101;114] /\
+  lbl_derived = [100;101;114;105;118;101;100] /\
+  lbl_finished = [102;105;110;105;115;104;101;100] /\
+  lbl_traffic_upd = [116;114;97;102;102;105;99;32;117;112;100] /\
+  lbl_key = [107;101;121] /\ lbl_iv = [105;118] /\ lbl_sn = [115;110] /\
+  lbl_exporter = [101;120;112;111;114;116;101;114].
+Proof. exact dtls13_labels. Qed.
+Print Assumptions C10_dtls13_labels.
+
+Theorem C10_dtls13_labels_nodup :
+  NoDup [lbl_c_hs_traffic; lbl_s_hs_traffic; lbl_c_ap_traffic; lbl_s_ap_traffic; lbl_exp_master;
+         lbl_res_master; lbl_derived; lbl_finished; lbl_traffic_upd; lbl_key; lbl_iv; lbl_sn; lbl_exporter].
+Proof. exact dtls13_labels_nodup. Qed.
+Print Assumptions C10_dtls13_labels_nodup.
+
+(* ---------------- suites ---------------- *)
+
+(* tie to the regenerated facts: every suite registered in the current tree has RFC parameters in
+   the model's table (so the per-suite correspondence leg covers all of them) *)
+Theorem C10_suites_cover_generated : forall s, In s g_suites -> suite_known s = true.
+Proof. exact suites_cover_generated. Qed.
+Print Assumptions C10_suites_cover_generated.
+
+(* the extra write-IV bytes /repo requests for CBC suites do not change the MAC / encryption keys *)
+Theorem C10_encryption_keys_iv_irrelevant :
+  forall H ms cr sr mac key iv iv', hash_wf H ->
+  let p := encryption_keys H ms cr sr mac key iv in
+  let p' := encryption_keys H ms cr sr mac key iv' in
+  k_client_mac p = k_client_mac p' /\ k_server_mac p = k_server_mac p' /\
+  k_client_key p = k_client_key p' /\ k_server_key p = k_server_key p'.
+Proof. exact encryption_keys_iv_irrelevant. Qed.
+Print Assumptions C10_encryption_keys_iv_irrelevant.
+
+(* non-vacuity: the hypotheses above are satisfiable and the model computes (kernel evaluation) *)
+Example C10_example_aad : aad12 1 5 23 65277 32 = [0;1; 0;0;0;0;0;5; 23; 254;253; 0;32].
+Proof. reflexivity. Qed.
+Example C10_example_aad_cid : aad12_cid 1 5 65277 [170; 187] 32 =
+  [255;255;255;255;255;255;255;255; 25; 2; 25; 254;253; 0;1; 0;0;0;0;0;5; 170;187; 0;32].
+Proof. reflexivity. Qed.
+Example C10_example_nonce : nonce_chacha (repeat 255 12) 1 5 = [255;255;255;255; 255;254; 255;255;255;255;255;250].
+Proof. reflexivity. Qed.
+Example C10_example_unified_header : aad13 [] 3 65541 40 = [47; 0;5; 0;40].
+Proof. reflexivity. Qed.
